@@ -185,7 +185,7 @@ pub fn sync(
         exists|p: int| #[trigger] ri(old(server).chain(), p, old(txn).st().base, old(txn).st().tasks, to_sync(old(txn).st().unsynced)),
     ensures
         final(txn).inv(), chain_wf(final(server).chain()), prefix(old(server).chain(), final(server).chain()),
-        //@ob C01 C02 C20 sync.on-success-the-replica-is-exactly-a-version-of-the-chain-with-nothing-pending-and-committed
+        //@ob C01 C02 C03 C20 sync.on-success-the-replica-is-exactly-a-version-of-the-chain-with-nothing-pending-and-committed
         r is Ok ==> final(txn).stored() == final(txn).st() && final(txn).st().unsynced.len() == 0
             && exists|p: int| #[trigger] ri(final(server).chain(), p, final(txn).st().base, final(txn).st().tasks, Seq::<SyncOp>::empty()),
         //@ob C04 sync.any-failure-leaves-the-stored-replica-untouched
@@ -253,7 +253,7 @@ pub fn sync(
             txn.st() == (TxnView { tasks: txn.st().tasks, base: txn.st().base, ..st1 }),
             st1.ws == old(txn).st().ws,
             base_version_id == txn.st().base,
-            //@ob C01 C02 C14 C20 sync.loop-invariant: the replica invariant holds for the rebased local operations, over ALL that remain unsent
+            //@ob C01 C02 C03 C14 C20 sync.loop-invariant: the replica invariant holds for the rebased local operations, over ALL that remain unsent
             ri(server.chain(), p, txn.st().base, txn.st().tasks, local_ops@),
             req_ok(server.chain(), requested_parent_version_id, req_pos),
             requested_parent_version_id is Some ==> req_pos <= p || true,
